@@ -862,6 +862,9 @@ func (fv *FnV) bitop(st *State, op token.Token, a, b Val, ty types.Type, n ast.N
 		// general case for small types, or for operands that are provably small bit sets: decompose both into bits
 		if bits > 8 && fv.provable(st, fmt.Sprintf("(and (<= 0 %s) (< %s 256) (<= 0 %s) (< %s 256))", a.T, a.T, b.T, b.T)) {
 			bits = 8
+			if fv.provable(st, fmt.Sprintf("(and (< %s 16) (< %s 16))", a.T, b.T)) {
+				bits = 4
+			}
 		}
 		if bits <= 8 {
 			at := fv.name("a", a.T, "Int")
